@@ -33,4 +33,20 @@ theorem planDataItem_eq (t : APath) (k : Key) (b : StoreOrder.Bytes) (hrel : (pa
   unfold tC
   rw [List.map_dropLast]
 
+theorem joinRel_sub (t : APath) (dir : String) (k : Key) (hrel : (parse k).abs = false)
+    (hn : (parse k).allNormal = true) :
+    joinRel (sub t dir) (parse k) = tC (destOf (t ++ [dir.toList]) k) := by
+  have hc := allNormal_comps hn
+  have hjr : ∀ (base : List Comp) (p : P) (names : List (List Char)), p.abs = false →
+      p.comps = names.map Comp.normal → joinRel base p = base ++ names.map Comp.normal := by
+    intro base p names ha hcp
+    unfold joinRel
+    rw [if_neg (by simp [ha]), hcp]
+    cases names <;> rfl
+  rw [hjr _ _ _ hrel hc]
+  unfold destOf namesOf sub tC
+  simp [List.map_append]
+
+theorem images_name : "images".toList = storeDirName .image := by decide
+
 end C16
